@@ -72,12 +72,22 @@ where
     }
 }
 
+/// `-maxdepth` and `-mindepth` are disabled in LiPE ([RunOptions] has nowhere to store them): a
+/// well-formed depth is refused with an error rather than accepted and lost
+fn disabled_depth(input: &mut &str) -> PResult<u32> {
+    preceded(
+        winnow::combinator::peek(u32::parse),
+        cut_err(fail.context(expected("unsupported_option"))),
+    )
+    .parse_next(input)
+}
+
 impl Parseable for GlobalOption {
     fn parse(input: &mut &'_ str) -> PResult<GlobalOption> {
         alt((
             literal("-depth").value(GlobalOption::Depth),
-            unary!("-maxdepth", GlobalOption::MaxDepth, u32::parse),
-            unary!("-mindepth", GlobalOption::MinDepth, u32::parse),
+            unary!("-maxdepth", GlobalOption::MaxDepth, disabled_depth),
+            unary!("-mindepth", GlobalOption::MinDepth, disabled_depth),
             unary!("-threads", GlobalOption::Threads, u32::parse),
         ))
         .context(label("global_option"))
